@@ -451,8 +451,6 @@ def units(tier, seed):
             continue
         if tier == 'quick' and prog.group not in ('buffer', 'index', 'reduce', 'shape', 'dot', 'comp', 'pow'):
             continue
-        if prog.name in ('sum(axis=0)', 'sum(square,axis=0)'):
-            continue     # known finding (pb_sum argument order), reported once by the plain programs
         Pp = 1 if ('clip' in prog.tags or prog.name in ('absolute', 'sign')) else (1 if tier == 'quick' else 2)
         out.append(Unit('C03/direct:%s/D2,P%d' % (prog.name, Pp), 'symx.props.c03', 'h_prog',
                         {'pname': prog.name, 'D': 2, 'P': Pp, 'route': 'direct'}, dict(opts)))
@@ -460,8 +458,6 @@ def units(tier, seed):
     for prog in PR.catalogue():
         if 'slow' in prog.tags or prog.group in ('factor', 'fft', 'comp', 'special') or 'halfangle' in prog.tags:
             continue
-        if prog.name in ('sum(axis=0)', 'sum(square,axis=0)'):
-            continue     # known finding (pb_sum argument order), reported once by the plain programs
         if prog.group == 'elem' and prog.name not in ('exp', 'sqrt'):
             continue
         Pp = 1 if ('clip' in prog.tags or prog.name in ('absolute', 'sign')) else (1 if tier == 'quick' else 2)
